@@ -205,7 +205,7 @@ func verify(root common.Hash, key []byte, db store.DatabaseReader) (r proofResul
 // distinct committed content in each worker.
 var tamperMemo = map[string]bool{}
 
-var flipMasks = []byte{0x01, 0x02, 0x04, 0x08, 0x10, 0x20, 0x40, 0x80, 0xff}
+var flipMasks = []byte{0x01, 0x80, 0xff}
 
 func (in *inst) proofs(s snap) *failure {
 	t0 := time.Now()
@@ -273,7 +273,8 @@ func (in *inst) proofs(s snap) *failure {
 		hs = append(hs, fmt.Sprintf("%x:%x", h, crypto.Keccak256(b)))
 	}
 	sort.Strings(hs)
-	mk := core.Hash(fmt.Sprintf("%v|%x|%s", in.sc.Secure, s.root, strings.Join(hs, ",")))
+	// (the key set that is swept belongs to the alphabet, so the alphabet is part of the memo key)
+	mk := core.Hash(fmt.Sprintf("%s|%x|%s", in.sc.Name[:2], s.root, strings.Join(hs, ",")))
 	if tamperMemo[mk] {
 		return nil
 	}
